@@ -322,6 +322,10 @@ fn input_snippet(
 
         let error_line = num >= start_line.0 as usize && num <= end_line.0 as usize;
         let arrow = error_line && missing_arrow;
+        // the columns are byte offsets into the line; a range may end on the line break or
+        // inside a multi-byte character, so they're clamped to the line and to char boundaries
+        let start_idx = floor_char_boundary(file_line, start_col.0 as usize);
+        let end_idx = ceil_char_boundary(file_line, end_col.0 as usize + 1).max(start_idx);
         let file_line = match (num == start_line.0 as usize, num == end_line.0 as usize) {
             (true, true) => {
                 if arrow {
@@ -330,11 +334,11 @@ fn input_snippet(
                     format!(
                         "{}{}{}{}{}{}",
                         ansi_reset,
-                        &file_line[..start_col.0 as usize],
+                        &file_line[..start_idx],
                         ansi_err,
-                        &file_line[start_col.0 as usize..end_col.0 as usize + 1],
+                        &file_line[start_idx..end_idx],
                         ansi_reset,
-                        &file_line[end_col.0 as usize + 1..],
+                        &file_line[end_idx..],
                     )
                 }
             }
@@ -342,18 +346,19 @@ fn input_snippet(
                 format!(
                     "{}{}{}{}",
                     ansi_reset,
-                    &file_line[..start_col.0 as usize],
+                    &file_line[..start_idx],
                     ansi_err,
-                    &file_line[start_col.0 as usize..]
+                    &file_line[start_idx..]
                 )
             }
             (false, true) => {
+                let end_idx = ceil_char_boundary(file_line, end_col.0 as usize + 1);
                 format!(
                     "{}{}{}{}",
                     ansi_err,
-                    &file_line[..end_col.0 as usize + 1],
+                    &file_line[..end_idx],
                     ansi_reset,
-                    &file_line[end_col.0 as usize + 1..]
+                    &file_line[end_idx..]
                 )
             }
             (false, false) if error_line => format!("{}{}", ansi_err, file_line),
@@ -387,6 +392,22 @@ fn input_snippet(
     }
 
     lines.push(String::new());
+}
+
+fn floor_char_boundary(s: &str, idx: usize) -> usize {
+    let mut idx = idx.min(s.len());
+    while !s.is_char_boundary(idx) {
+        idx -= 1;
+    }
+    idx
+}
+
+fn ceil_char_boundary(s: &str, idx: usize) -> usize {
+    let mut idx = idx.min(s.len());
+    while !s.is_char_boundary(idx) {
+        idx += 1;
+    }
+    idx
 }
 
 // count the digits in a number e.g.
